@@ -380,15 +380,17 @@ func decodeBlock(c cid.Cid, data []byte) (ipld.Node, error) {
 
 type rawNode struct{ blocks.Block }
 
-func (r *rawNode) Resolve([]string) (interface{}, []string, error) { return nil, nil, fmt.Errorf("raw") }
-func (r *rawNode) Tree(string, int) []string                         { return nil }
+func (r *rawNode) Resolve([]string) (interface{}, []string, error) {
+	return nil, nil, fmt.Errorf("raw")
+}
+func (r *rawNode) Tree(string, int) []string { return nil }
 func (r *rawNode) ResolveLink([]string) (*ipld.Link, []string, error) {
 	return nil, nil, fmt.Errorf("raw")
 }
-func (r *rawNode) Copy() ipld.Node             { return r }
-func (r *rawNode) Links() []*ipld.Link         { return nil }
+func (r *rawNode) Copy() ipld.Node               { return r }
+func (r *rawNode) Links() []*ipld.Link           { return nil }
 func (r *rawNode) Stat() (*ipld.NodeStat, error) { return &ipld.NodeStat{}, nil }
-func (r *rawNode) Size() (uint64, error)       { return uint64(len(r.RawData())), nil }
+func (r *rawNode) Size() (uint64, error)         { return uint64(len(r.RawData())), nil }
 
 type simDag struct{ p *Peer }
 
